@@ -27,7 +27,8 @@ RULE = ("Case = line-shape class x plasma state (species T incl. <=0, flow, n_e/
         "Stark / parametrised-Zeeman coefficients, MSE ratio functions) x spectral window placed relative to the line "
         "(containing, cutting at a mass quantile, beside, one bin, fine). Oracles: total on a covering window, "
         "bin-average by grid nesting, in-window fraction against an independently binned aligned reference, absolute "
-        "erf / hyp2f1 bins from the documented formulas, pi+sigma=no and the sin^2/cos^2 weights, linearity, zero-width. "
+        "erf / hyp2f1 bins from the documented formulas, pi+sigma=no and the sin^2/cos^2 weights, linearity, zero-width, and one model "
+        "object asked at two points of a two-state plasma (state A, B, A again: each as a fresh model in a uniform plasma of that state). "
         "Non-trivial = 0.01 < in-window fraction < 0.99, or B oblique to the view (not within 1 deg of 0/90/180), or >= 2 "
         "components, or polarisation != no; distinct by case hash.")
 ASSUMPTIONS = ["CODATA constants from scipy.constants; the code's older HC_EV_NM / Bohr magneton (rel. 1e-8) are covered by an "
@@ -41,7 +42,7 @@ TOLERANCES = {
     "stark per-bin / totals, default GaussianQuadrature(1e-5), bins <= FWHM/2": "3e-4 R per bin and in total: the quadrature's stopping rule compares successive orders and the profile has a cusp at the line centre; measured worst error of the bin holding the centre over 2400 sub-bin offsets: 1e-6 R (bin = 0.1 FWHM), 2.1e-5 (0.25), 7.2e-5 (0.5), 3.2e-3 (0.85), 8e-4 (1), 3.8e-3 (2), 0.33 (50) -> bins > FWHM/2 belong to the known finding C02-stark-coarse-bins; + tail mass 5.05e-4 R allowed above (whole-bin treatment at the +-50 FWHM cut)",
     "stark with GaussianQuadrature(relative_tolerance=1e-10), bins <= FWHM/2": "2e-6 R",
 }
-REQUIRED_LABELS = ["shape:mse-resolved", "shape:win:cut", "shape:win:contain", "shape:B:oblique", "shape:pol:pi", "shape:pol:sigma", "shape:zero-width"]
+REQUIRED_LABELS = ["shape:two-states:same-centre", "shape:two-states:moved", "shape:mse-resolved", "shape:win:cut", "shape:win:contain", "shape:B:oblique", "shape:pol:pi", "shape:pol:sigma", "shape:zero-width"]
 
 C = K.c
 AMU = K.atomic_mass
@@ -104,6 +105,10 @@ def strategy(draw):
             "win": {"mode": draw(st.sampled_from(["contain", "cut", "cut", "cutboth", "beside", "onebin", "fine"])),
                     "bins": draw(st.integers(1, 400)), "u": draw(st.floats(0.02, 0.98)), "u2": draw(st.floats(0.02, 0.98)),
                     "k": draw(st.integers(2, 5)), "pad": draw(st.floats(0.0, 3.0))}}
+    # a second plasma state (same model object, other point of a non-uniform plasma): never wider / further shifted than the first
+    case["alt"] = {"fne": draw(st.floats(0.3, 1.0)), "fte": draw(st.floats(1.0, 3.0)), "fts": draw(st.floats(0.3, 1.0)),
+                   "fB": draw(st.sampled_from([1.0, 1.0, 0.5, 0.0])), "fv": draw(st.sampled_from([1.0, 1.0, 1.0, 0.5])),
+                   "zero": draw(st.sampled_from(["", "", "", "ts", "ne"])), "default_integ": draw(st.booleans())}
     if cls == "multiplet":
         case["multiplet"] = draw(_multiplet())
     if cls == "zmultiplet":
@@ -158,15 +163,62 @@ class Built:
     pass
 
 
-def build(case, pol=None, integrator=None):
+PT_A = {"plasma": (0.1, -0.2, 0.3), "mse_beam": (0.1, 0.2, 0.3), "mse_plasma": (0.3, 0.2, 0.1)}
+PT_SHIFT = (0.5, -0.75, 1.25)        # state B lives at the same points shifted by this vector
+
+
+def alt_case(case):
+    """The second state of the two-state plasma: the case with scaled n_e, T_e, T_s, |B|, flow (the model's own parameters,
+    e.g. the Stark coefficients derived from the first state, stay)."""
+    a = case["alt"]
+    c = dict(case, ne=case["ne"] * a["fne"], te=case["te"] * a["fte"], ts=case["ts"] * a["fts"], Bmag=case["Bmag"] * a["fB"],
+             v=[x * a["fv"] for x in case["v"]])
+    if case["cls"] != "mse":
+        if a["zero"] == "ts":
+            c["ts"] = 0.0
+        elif a["zero"] == "ne":
+            c["ne"] = 0.0
+    if case["cls"] == "stark":
+        c["stark_c"] = stark_coeffs(case)
+    c["alt"] = {"default_integ": a.get("default_integ", False)}      # the reference model is constructed the same way
+    return c
+
+
+def _two(pts, va, vb, vc):
+    """va at the first state's point, vb at the second state's, vc anywhere else (a model sampling the plasma at another
+    point than the one it is given - mixed coordinates, a remembered point - reads vc and cannot agree with either oracle)."""
+    pa = pts
+    pb = tuple(p + sft for p, sft in zip(pts, PT_SHIFT))
+
+    def f(x, y, z):
+        if abs(x - pa[0]) + abs(y - pa[1]) + abs(z - pa[2]) < 1e-6:
+            return va
+        if abs(x - pb[0]) + abs(y - pb[1]) + abs(z - pb[2]) < 1e-6:
+            return vb
+        return vc
+    return f
+
+
+def build(case, pol=None, integrator=None, alt=None):
     b = Built()
     el = getattr(EL, case["el"])
     dhat = _direction(case)
     bv = _bvec(case, dhat)
     plasma = Plasma()
-    plasma.b_field = ConstVec3D(Vector3D(*bv))
-    plasma.electron_distribution = Maxwellian(case["ne"], case["te"], ConstVec3D(Vector3D(0, 0, 0)), K.m_e)
-    sp = Species(el, 0, Maxwellian(1e18, case["ts"], ConstVec3D(Vector3D(*case["v"])), el.atomic_weight * AMU))
+    if alt is None:
+        plasma.b_field = ConstVec3D(Vector3D(*bv))
+        plasma.electron_distribution = Maxwellian(case["ne"], case["te"], ConstVec3D(Vector3D(0, 0, 0)), K.m_e)
+        sp = Species(el, 0, Maxwellian(1e18, case["ts"], ConstVec3D(Vector3D(*case["v"])), el.atomic_weight * AMU))
+    else:
+        pts = PT_A["mse_plasma"] if case["cls"] == "mse" else PT_A["plasma"]
+        bvb = _bvec(alt, dhat)
+        zero = Vector3D(0, 0, 0)
+        plasma.b_field = _two(pts, Vector3D(*bv), Vector3D(*bvb), Vector3D(0.37 * bv[1] + 0.2, -0.6 * bv[2], 0.11 * bv[0] - 0.3))
+        plasma.electron_distribution = Maxwellian(_two(pts, case["ne"], alt["ne"], 2.9e19), _two(pts, case["te"], alt["te"], 7.7),
+                                                  _two(pts, zero, zero, zero), K.m_e)
+        sp = Species(el, 0, Maxwellian(_two(pts, 1e18, 1e18, 1e18), _two(pts, case["ts"], alt["ts"], 0.61 * case["ts"] + 0.4),
+                                       _two(pts, Vector3D(*case["v"]), Vector3D(*alt["v"]), Vector3D(1e4, -2e4, 3e4)),
+                                       el.atomic_weight * AMU))
     plasma.composition = [sp]
     line = Line(el, 0, (3, 2))
     ad = AtomicData()
@@ -192,8 +244,12 @@ def build(case, pol=None, integrator=None):
         zs = ZeemanStructure(comps(case["zs"]["pi"]), comps(case["zs"]["sp"]), comps(case["zs"]["sm"]))
         m = ZeemanMultiplet(line, wl, sp, plasma, ad, zs, pol)
     elif cls == "stark":
-        m = StarkBroadenedLine(line, wl, sp, plasma, ad, tuple(stark_coeffs(case)),
-                               integrator if integrator is not None else GaussianQuadrature(), pol)
+        if integrator is None and case.get("alt", {}).get("default_integ"):
+            # the integrator left to its default: every instance built this way shares the signature's default object
+            m = StarkBroadenedLine(line, wl, sp, plasma, ad, tuple(stark_coeffs(case)), polarisation=pol)
+        else:
+            m = StarkBroadenedLine(line, wl, sp, plasma, ad, tuple(stark_coeffs(case)),
+                                   integrator if integrator is not None else GaussianQuadrature(), pol)
     elif cls == "mse":
         ms = case["mse"]
         beam = Beam()
@@ -203,8 +259,8 @@ def build(case, pol=None, integrator=None):
         beam.element = getattr(EL, ms["bel"])
         b.beam = beam
         s2p = ms["s2p"]
-        m = BeamEmissionMultiplet(line, wl, beam, ad, (lambda n, e: s2p[0] + s2p[1] * e), (lambda n: ms["s1s0"]),
-                                  (lambda n: ms["p2p3"]), (lambda n: ms["p4p3"]))
+        m = BeamEmissionMultiplet(line, wl, beam, ad, (lambda n, e: (s2p[0] + s2p[1] * e) * _nfac(n)), (lambda n: ms["s1s0"] * _nfac(n)),
+                                  (lambda n: ms["p2p3"] / _nfac(n)), (lambda n: ms["p4p3"] * _nfac(n) ** 2))
         bd = list(ms["bdir"])
         if math.sqrt(sum(x * x for x in bd)) < 1e-3:
             bd = [0.0, 0.0, 1.0]
@@ -216,7 +272,14 @@ def build(case, pol=None, integrator=None):
     return b
 
 
+def _nfac(n):
+    """Electron-density dependence given to the MSE ratio functions (documented as functions of n_e)."""
+    return (n / 1e19) ** 0.1
+
+
 def stark_coeffs(case):
+    if "stark_c" in case:
+        return list(case["stark_c"])
     s = case["stark"]
     # c is chosen so that FWHM_L = rel * lambda at the case's own (ne, te)
     ne0 = case["ne"] if case["ne"] > 0 else 1e20
@@ -225,14 +288,18 @@ def stark_coeffs(case):
     return [c, s["a"], s["b"]]
 
 
-def add(b, case, radiance, wmin, wmax, bins, base=0.0):
+def add(b, case, radiance, wmin, wmax, bins, base=0.0, state="A"):
     s = Spectrum(wmin, wmax, bins)
     if base:
         s.samples[:] = base
+    sh = PT_SHIFT if state == "B" else (0.0, 0.0, 0.0)
+
+    def pt(name):
+        return Point3D(*[p + d for p, d in zip(PT_A[name], sh)])
     if case["cls"] == "mse":
-        out = b.model.add_line(radiance, Point3D(0.1, 0.2, 0.3), Point3D(0.3, 0.2, 0.1), b.beam_dir, b.direction, s)
+        out = b.model.add_line(radiance, pt("mse_beam"), pt("mse_plasma"), b.beam_dir, b.direction, s)
     else:
-        out = b.model.add_line(radiance, Point3D(0.1, -0.2, 0.3), b.direction, s)
+        out = b.model.add_line(radiance, pt("plasma"), b.direction, s)
     return np.array(out.samples) - base
 
 
@@ -565,6 +632,33 @@ def run(case, ctx):
         ctx.close(gb, got, "adds-to-existing", rtol=0, atol=1e-14 * (case["base"] + dens))   # <= ~20 accumulated roundings
         ctx.label("baseline")
 
+    # (6c) one model object in a non-uniform plasma: state A, state B, state A again.  Each result depends on the state at the
+    # point it was asked for only: A as before, B as a fresh model in a uniform plasma of state B, A bit for bit as the first time
+    if "alt" in case:
+        cb = alt_case(case)
+        if not (cls == "mse" and (cb["ne"] <= 0 or cb["te"] <= 0)):
+            with ctx.cut("construct"):
+                b2 = build(case, alt=cb)
+                bref = build(cb)
+                if cls == "mse":
+                    bref.beam_dir = b2.beam_dir      # the beam does not change between the two states
+            with ctx.cut("add_line"):
+                a1 = add(b2, case, Rr, wmin, wmax, bins, state="A")
+                gb2 = add(b2, case, Rr, wmin, wmax, bins, state="B")
+                a2 = add(b2, case, Rr, wmin, wmax, bins, state="A")
+                refb = add(bref, cb, Rr, wmin, wmax, bins)
+                a3 = add(b2, case, Rr, wmin, wmax, bins, state="A")       # after another instance of the class was used
+            tol2 = 1e-12 * Rr + 1e-14 * dens * d
+            ctx.close(a1 * d, got * d, "two-states", rtol=0, atol=tol2, info="(first state, model in the two-state plasma vs uniform plasma)")
+            ctx.close(gb2 * d, refb * d, "two-states", rtol=0, atol=tol2 + 1e-14 * float(refb.max()) * d,
+                      info="(second state %r after the first: same model object vs a fresh model in a uniform plasma of that state)"
+                      % ({k: cb[k] for k in ("ne", "te", "ts", "Bmag")},))
+            ctx.check(np.array_equal(a1, a2), "two-states", lambda: "first state again after the second: max diff %r x bin width"
+                      % float(np.max(np.abs(a1 - a2)) * d))
+            ctx.check(np.array_equal(a1, a3), "two-instances", lambda: "first state again after a second model instance was built and "
+                      "used: max diff %r x bin width" % float(np.max(np.abs(a1 - a3)) * d))
+            ctx.label("two-states", "two-states:same-centre" if (case["alt"]["fv"] == 1.0 and (case["Bmag"] == 0 or pol == "pi")) else "two-states:moved")
+
     # (7) MSE: resolved components carry the stated ratios
     if cls == "mse":
         _mse_ratios(case, ctx, b, Rr, lo, hi)
@@ -600,13 +694,15 @@ def _mse_ratios(case, ctx, b, Rr, lo, hi):
             i = j
         else:
             i += 1
-    s2p = ms["s2p"][0] + ms["s2p"][1] * ms["E"]
+    nf = _nfac(case["ne"])
+    s2p = (ms["s2p"][0] + ms["s2p"][1] * ms["E"]) * nf
     dd = 1 / (1 + s2p)
     i_sig, i_pi = s2p * dd, 0.5 * dd
-    s0 = 1 / (1 + ms["s1s0"])
-    s1 = 0.5 * ms["s1s0"] * s0
-    p3 = 1 / (1 + ms["p2p3"] + ms["p4p3"])
-    p2, p4 = ms["p2p3"] * p3, ms["p4p3"] * p3
+    s1s0, p2p3, p4p3 = ms["s1s0"] * nf, ms["p2p3"] / nf, ms["p4p3"] * nf ** 2
+    s0 = 1 / (1 + s1s0)
+    s1 = 0.5 * s1s0 * s0
+    p3 = 1 / (1 + p2p3 + p4p3)
+    p2, p4 = p2p3 * p3, p4p3 * p3
     want = [i_pi * p4, i_pi * p3, i_pi * p2, i_sig * s1, i_sig * s0, i_sig * s1, i_pi * p2, i_pi * p3, i_pi * p4]
     ctx.close(sum(want), 1.0, "mse-oracle-selfcheck", rtol=0, atol=1e-12)
     masses = [float(s[a:bb].sum() * d) for a, bb in runs]
